@@ -58,6 +58,35 @@ pub(crate) trait ActionsGenerator {
     ) -> Vec<(String, syn::Item)>;
 }
 
+/// Snake-case symbol names are used as identifiers (action functions,
+/// parameters, fields) in the generated actions and in the calls of the
+/// actions in the generated parser.
+pub(super) fn check_action_identifiers(generator: &ParserGenerator) -> Result<()> {
+    for name in generator
+        .grammar
+        .terminals
+        .iter()
+        .filter(|t| t.has_content && t.reachable.get())
+        .map(|t| &t.name)
+        .chain(
+            generator
+                .grammar
+                .nonterminals()
+                .iter()
+                .filter(|nt| nt.reachable.get())
+                .map(|nt| &nt.name),
+        )
+    {
+        let ident = to_snake_case(name);
+        if syn::parse_str::<syn::Ident>(&ident).is_err() {
+            return Err(Error::Error(format!(
+                "Can't use '{name}' with the default builder as '{ident}' is not a valid Rust identifier."
+            )));
+        }
+    }
+    Ok(())
+}
+
 pub(super) fn generate_parser_actions(generator: &ParserGenerator) -> Result<()> {
     let parser_mod = PathBuf::from(&generator.file_name)
         .file_stem()
@@ -133,31 +162,6 @@ pub(super) fn generate_parser_actions(generator: &ParserGenerator) -> Result<()>
             // We don't need to do anything for other source items
             _ => (),
         };
-    }
-
-    // Snake-case symbol names are used as identifiers (action functions,
-    // parameters, fields) in the generated actions.
-    for name in generator
-        .grammar
-        .terminals
-        .iter()
-        .filter(|t| t.has_content && t.reachable.get())
-        .map(|t| &t.name)
-        .chain(
-            generator
-                .grammar
-                .nonterminals()
-                .iter()
-                .filter(|nt| nt.reachable.get())
-                .map(|nt| &nt.name),
-        )
-    {
-        let ident = to_snake_case(name);
-        if syn::parse_str::<syn::Ident>(&ident).is_err() {
-            return Err(Error::Error(format!(
-                "Can't use '{name}' with the default builder as '{ident}' is not a valid Rust identifier."
-            )));
-        }
     }
 
     let actions_generator: Box<dyn ActionsGenerator> = production::ProductionActionsGenerator::new(
